@@ -1,6 +1,6 @@
 #!/bin/bash
 # runs every claimed check (quick tier) and prints one summary line each
-cd /verif
+cd "$(dirname "$0")"
 for p in $(python3 -c "import json; print(' '.join(c['property_id'] for c in json.load(open('MANIFEST.json'))['checks']))"); do
   if [ -n "$SKIP" ] && echo "$SKIP" | grep -qw "$p"; then continue; fi
   ./check $p --tier ${TIER:-quick} > /tmp/runall_$p.log 2>&1; rc=$?
